@@ -352,6 +352,13 @@ func mkClause(kind, rest, file string, line int) (*Clause, error) {
 		c.Site = m[2]
 		c.Extra["behaviour"] = m[3]
 		return c, nil
+	case "modifies":
+		re := regexp.MustCompile(`^loop\s*(\d+)\s*:\s*(.*)$`)
+		if m := re.FindStringSubmatch(rest); m != nil {
+			c.Loop, _ = strconv.Atoi(m[1])
+			c.Text = m[2]
+		}
+		return c, nil
 	default:
 		return c, nil
 	}
